@@ -124,6 +124,32 @@ def entry [Inhabited α] (M : List (List α)) (i j : Nat) : α := (M.getD i []).
 def selectCols [Inhabited α] (sol : List (List α)) (idx : List Nat) : List (List α) :=
   sol.map fun row => idx.map fun j => row.getD j default
 
+/-! ### θ → parameter binding handed to the model (`_setParam`) -/
+
+/-- what `_setParam` stores in `self._theta` and then assigns to `ode.parameters` (C09 takes over from there):
+nothing (model without parameters), the whole vector positionally, or `name ↦ value` pairs -/
+inductive ThetaBinding (α : Type) where
+  | none
+  | positional (θ : List α)
+  | byName (pairs : List (String × α))
+  deriving Repr, DecidableEq
+
+/-- `BaseLoss._setParam(theta)` with `theta` already an array: with `target_param` the `i`-th value is paired
+with the `i`-th supplied NAME; length mismatches are `InputError`s (an empty `theta` for a single target is
+an `IndexError`) -/
+def setParam (numParam : Nat) (target : Option (List String)) (theta : List α) : Except String (ThetaBinding α) :=
+  if numParam == 0 then .ok .none else
+  match target with
+  | none => .ok (.positional theta)
+  | some tp =>
+    if tp.length > 1 then
+      if theta.length != tp.length then .error "InputError" else .ok (.byName (tp.zip theta))
+    else
+      if theta.length > 1 then .error "InputError"
+      else match tp, theta with
+        | [t], [v] => .ok (.byName [(t, v)])
+        | _, _ => .error "IndexError"
+
 /-! ### cost composition -/
 
 /-- `Σ_{i<n} Σ_{j<p} f i j` -/
